@@ -245,6 +245,22 @@ def consumer_gens(op):
     return []
 
 
+def _stale_empty_reshape_entry(oplist, sts, final_dump):
+    """a successful reshape carries an EMPTY entry for a consumer, another successful request carries the same
+    (consumer, generation), and the consumer holds nothing at the end"""
+    holders = {x[1] for x in final_dump['allocs']}
+    for i, op in enumerate(oplist):
+        if op['op'] != 'reshape' or not ok(sts[i]):
+            continue
+        for c in op['cs']:
+            if c['allocs'] or c['uuid'] in holders:
+                continue
+            for j, other in enumerate(oplist):
+                if j != i and ok(sts[j]) and (c['uuid'], c['gen']) in consumer_gens(other):
+                    return True
+    return False
+
+
 def named_consumers(op):
     o = op['op']
     if o == 'alloc_put':
@@ -399,6 +415,11 @@ def monitors(props, start_snap, start_dump, oplist, leaf, serial_cache):
                 who = 'deleted-by-creator' if removers and removers <= creators else \
                     ('deleted-by-non-creator' if removers else 'deleted-by-successful-request')
                 sig = pfx + 'not-serializable:allocations-without-consumer:' + who
+            elif pfx == ser0 == 'c07:' and _stale_empty_reshape_entry(oplist, sts, d):
+                # the listed defect of empty entries (an empty entry for a consumer that has nothing left when the request
+                # commits is accepted whatever generation it carries), met in a reshape - which cannot be set aside as a
+                # whole like a no-op PUT because it also replaces inventories
+                sig = 'c07:empty-reshape-entry-accepted-with-stale-generation'
             elif set(d['consumers']) - holders:
                 sig = pfx + 'not-serializable:consumer-without-allocations'
             elif pfx != ser0:
